@@ -108,6 +108,6 @@ def run(tier, out, model_ok, proof):
         "exhaustive": False,
     })
     out.assumptions += [
-        "PARTIAL: well-formedness for all byte strings is not a theorem yet; proved for all inputs: event offsets, event-table partition, pairing; the rest rests on the per-Next() correspondence (model regenerated from the source) and on the predicate evaluated on the implementation",
+        "PARTIAL: proved for all byte strings over the regenerated scanner: lexemes in text order without overlap, inside the file (oracle contract asserted here), never inverted, kinds well bracketed per directive, events well bracketed; the byte-exact equality with the rendered document rests on the per-Next() correspondence (model regenerated from the source) and on the expected extents computed by the renderer",
         "schema/enum body lengths are the dependency's (oracle); a '#' comment directly after a jschema body belongs to the body",
     ]
